@@ -1,4 +1,5 @@
 import MidnightZK.Model.C02.RowSat
+import MidnightZK.Proofs.C02.Combination
 /-!
 # C02 — the verifier enforces every constraint class; agrees with the mock checker
 -/
@@ -67,5 +68,18 @@ theorem mock_pinned_disagree_witness :
 
 /-- Non-vacuity of `mock_agrees`: the D2 table has usable rows. -/
 example : 0 < d2Table.n - (d2CS.blinding + 1) := by decide
+
+/-- **Soundness of folding the identities with `y`** (`PartiallyEvaluated::verify` computes
+`expressions.fold(0, |h, v| h·y + v)`): over any field, if the folded value vanishes for at
+least as many distinct challenges `y` as there are identities, then every single identity value
+is zero. Hence a proof in which some identity (a gate, a permutation or lookup rule, a trash
+constraint) does not vanish passes the combined check for fewer than `#identities` values of `y`. -/
+theorem y_combination_sound {F : Type} [Field F] (vs : List F) (ys : Finset F)
+    (hcard : vs.length ≤ ys.card) (hzero : ∀ y ∈ ys, foldY vs y = 0) : ∀ v ∈ vs, v = 0 :=
+  y_combination_sound_aux vs ys hcard hzero
+
+/-- Non-vacuity: the hypotheses are satisfiable with a non-empty list (all-zero identities). -/
+example : ∀ y ∈ ({0, 1} : Finset ℚ), foldY [0, 0] y = 0 := by
+  intro y _; simp [foldY]
 
 end MidnightZK.C02
